@@ -6,6 +6,7 @@ can be shared by every property that relies on it.  They are deliberately small 
 they accept the equivalent spellings the refactoring controls produced.
 """
 from __future__ import annotations
+import re
 from .common import *
 
 
@@ -398,19 +399,207 @@ def event_bus_emit_contains(eng: Engine, ck: Check, rule: str, relies: str):
 
 
 # --------------------------------------------------------------------------- objects that are registered and removed BY IDENTITY
+def eq_is_identity(eng: Engine, c: ClassInfo, fn: FuncInfo) -> Optional[str]:
+    """None when the hand-written `__eq__` decides exactly what the inherited one does (equal iff the very same object), else why not.
+    The body is evaluated three times over a small symbolic domain: `other is self`; `other` a DIFFERENT object of the same class whose
+    fields may all be equal; `other` of a foreign class.  It must give True / NotImplemented in the first case and False / NotImplemented
+    in the other two (Python falls back to identity when both sides answer NotImplemented).  Anything whose value depends on field
+    contents is unknown; a test on an unknown value explores both branches."""
+    a = fn.node.args
+    ps = [x.arg for x in a.posonlyargs + a.args]
+    if len(ps) != 2:
+        return 'unexpected signature'
+    SELF, OTHER = ps
+    UNK, NI = 'UNK', 'NI'
+
+    class Stop(Exception):
+        pass
+
+    def canon(t, case):
+        if case == 'same':
+            if t == ('obj', 'other'):
+                return ('obj', 'self')
+            if isinstance(t, tuple):
+                return tuple(canon(x, case) if isinstance(x, tuple) else x for x in t)
+        return t
+
+    def sym(e, env, case, recv=None, depth=0):
+        """expression -> symbolic term"""
+        if isinstance(e, ast.Name):
+            if e.id in env:
+                return env[e.id]
+            if e.id == 'NotImplemented':
+                return ('val', NI)
+            return ('opaque', e.id)
+        if isinstance(e, ast.Constant):
+            return ('val', e.value) if isinstance(e.value, bool) or e.value is None else ('const', repr(e.value))
+        if isinstance(e, ast.Tuple):
+            return ('tuple',) + tuple(sym(x, env, case, recv, depth) for x in e.elts)
+        if isinstance(e, ast.Call):
+            if isinstance(e.func, ast.Name) and e.func.id == 'id' and len(e.args) == 1:
+                return ('id', sym(e.args[0], env, case, recv, depth))
+            if isinstance(e.func, ast.Name) and e.func.id == 'isinstance' and len(e.args) == 2:
+                o = sym(e.args[0], env, case, recv, depth)
+                if o == ('obj', 'other') and unparse(e.args[1]) in [x.name for x in eng.repo.mro(c)] + ['type(self)', 'self.__class__', '__class__']:
+                    return ('val', case != 'foreign')
+                if o == ('obj', 'self'):
+                    return ('val', True)
+                return ('val', UNK)
+            if isinstance(e.func, ast.Attribute) and not e.args and not e.keywords and depth < 3:
+                o = sym(e.func.value, env, case, recv, depth)
+                if o in (('obj', 'self'), ('obj', 'other')) and not (o == ('obj', 'other') and case == 'foreign'):
+                    m = next((x.methods[e.func.attr] for x in eng.repo.mro(c) if e.func.attr in x.methods), None)
+                    if m is not None and not m.is_async:
+                        body = [s_ for s_ in m.node.body if not (isinstance(s_, ast.Expr) and isinstance(s_.value, ast.Constant))]
+                        mp = [x.arg for x in m.node.args.posonlyargs + m.node.args.args]
+                        if len(body) == 1 and isinstance(body[0], ast.Return) and body[0].value is not None and len(mp) == 1:
+                            return sym(body[0].value, {mp[0]: o}, case, recv, depth + 1)
+            return ('opaque', unparse(e)) if not any(isinstance(n, ast.Name) and n.id in env for n in ast.walk(e)) else ('field', unparse(e))
+        if isinstance(e, ast.Attribute):
+            o = sym(e.value, env, case, recv, depth)
+            return ('attr', o, e.attr)
+        if isinstance(e, (ast.Compare, ast.BoolOp, ast.UnaryOp)):
+            return ('val', truth(e, env, case, depth))
+        return ('field', unparse(e))
+
+    def definitely(op, l, r, case):
+        l, r = canon(l, case), canon(r, case)
+        ident = isinstance(op, (ast.Is, ast.IsNot))
+        pos = isinstance(op, (ast.Is, ast.Eq))
+        res = UNK
+        if l == r and 'field' not in str(l) and 'opaque' not in str(l):
+            res = True
+        elif l == r and not ident:
+            res = True if 'opaque' not in str(l) else UNK        # the same deterministic read on the same object
+        elif {l, r} == {('obj', 'self'), ('obj', 'other')}:
+            res = False if ident else UNK                         # `self == other` inside __eq__ would recurse: not decided here
+        elif l[0] == 'id' and r[0] == 'id' and {l[1], r[1]} == {('obj', 'self'), ('obj', 'other')}:
+            res = False
+        elif l[0] == 'tuple' and r[0] == 'tuple' and not ident:
+            if len(l) != len(r):
+                res = False
+            else:
+                parts = [definitely(ast.Eq(), x, y, case) for x, y in zip(l[1:], r[1:])]
+                res = False if any(p_ is False for p_ in parts) else True if all(p_ is True for p_ in parts) else UNK
+        if res is UNK:
+            return UNK
+        return res if pos else not res
+
+    def truth(e, env, case, depth=0):
+        if isinstance(e, ast.UnaryOp) and isinstance(e.op, ast.Not):
+            t = truth(e.operand, env, case, depth)
+            return UNK if t is UNK else not t
+        if isinstance(e, ast.BoolOp):
+            ts = [truth(x, env, case, depth) for x in e.values]
+            if isinstance(e.op, ast.And):
+                return False if any(t is False for t in ts) else True if all(t is True for t in ts) else UNK
+            return True if any(t is True for t in ts) else False if all(t is False for t in ts) else UNK
+        if isinstance(e, ast.Compare) and len(e.ops) == 1 and isinstance(e.ops[0], (ast.Is, ast.IsNot, ast.Eq, ast.NotEq)):
+            return definitely(e.ops[0], sym(e.left, env, case, None, depth), sym(e.comparators[0], env, case, None, depth), case)
+        v = sym(e, env, case, None, depth)
+        if v[0] == 'val' and v[1] in (True, False):
+            return v[1]
+        if v == ('val', None):
+            return False
+        return UNK
+
+    def run(stmts, env, case, out):
+        """-> True when control may fall off the end of `stmts`"""
+        for st in stmts:
+            if isinstance(st, ast.Expr) and isinstance(st.value, ast.Constant) or isinstance(st, ast.Pass):
+                continue
+            if isinstance(st, ast.Return):
+                if st.value is None:
+                    out.add(False)
+                else:
+                    v = sym(st.value, env, case)
+                    out.add(v[1] if v[0] == 'val' else UNK)
+                return False
+            if isinstance(st, ast.If):
+                t = truth(st.test, env, case)
+                falls = []
+                if t is not False:
+                    falls.append(run(st.body, dict(env), case, out))
+                if t is not True:
+                    falls.append(run(st.orelse, dict(env), case, out))
+                if not any(falls):
+                    return False
+                continue
+            if isinstance(st, ast.Assign) and len(st.targets) == 1 and isinstance(st.targets[0], ast.Name):
+                env[st.targets[0].id] = sym(st.value, env, case)
+                continue
+            if isinstance(st, ast.Raise):
+                return False
+            raise Stop(f'statement `{unparse(st)[:40]}` is outside the fragment')
+        return True
+    want = {'same': {True, NI}, 'different': {False, NI, None}, 'foreign': {False, NI, None}}
+    for case, ok in want.items():
+        out: set = set()
+        try:
+            if run(fn.node.body, {SELF: ('obj', 'self'), OTHER: ('obj', 'other')}, case, out):
+                out.add(None)
+        except Stop as ex:
+            return str(ex)
+        bad = out - ok
+        if bad:
+            what = {'same': 'compared with itself', 'different': 'compared with ANOTHER object of the class whose fields are all equal',
+                    'foreign': 'compared with an object of another class'}[case]
+            return f'{what} it may answer {sorted(map(str, bad))}'
+    return None
+
+
+IDENTITY_HASHES = ('object.__hash__', 'asyncio.Future.__hash__', 'asyncio.futures.Future.__hash__')
+
+
+def hash_is_identity(c: ClassInfo) -> Optional[str]:
+    """None when the class's `__hash__` is the identity hash under another spelling (`return object.__hash__(self)`, `return id(self)`,
+    `return hash(id(self))`, `return super().__hash__()`, `__hash__ = object.__hash__`), else why not.  A hash over fields is legal next to an
+    identity `__eq__` but moves when a field is assigned (PeerConnection.username is assigned after the handshake), which loses the
+    object in every set / dict that holds it."""
+    for st in c.node.body:
+        if isinstance(st, ast.Assign) and any(unparse(t) == '__hash__' for t in st.targets):
+            return None if unparse(st.value) in IDENTITY_HASHES else f'__hash__ = {unparse(st.value)}'
+    m = c.methods.get('__hash__')
+    if m is None:
+        return None
+    body = [s_ for s_ in m.node.body if not (isinstance(s_, ast.Expr) and isinstance(s_.value, ast.Constant))]
+    if len(body) == 1 and isinstance(body[0], ast.Return) and body[0].value is not None:
+        src = unparse(body[0].value)
+        slf = m.params[0] if m.params else 'self'
+        if src in (f'object.__hash__({slf})', f'id({slf})', f'hash(id({slf}))', 'super().__hash__()', f'asyncio.Future.__hash__({slf})'):
+            return None
+        return f'__hash__ returns {src[:60]}'
+    return '__hash__ has a body the check does not read as the identity hash'
+
+
 def identity_semantics(eng: Engine, ck: Check, rule: str, classes: list[tuple[str, str]], why: str):
     """`xs.remove(x)`, `x in xs`, `a == b` on these objects mean "this very object": none of the classes (nor a repository base class)
-    defines __eq__ / __hash__ or is a dataclass with generated equality.  A value-based __eq__ makes list.remove() take out the FIRST
-    EQUAL element -- another live object -- and leave the one that was meant."""
+    defines a value-based __eq__ / __hash__ or is a dataclass with generated equality.  A value-based __eq__ makes list.remove() take out
+    the FIRST EQUAL element -- another live object -- and leave the one that was meant.  A hand-written __eq__ / __hash__ is accepted when
+    it provably IS the identity (eq_is_identity / hash_is_identity)."""
     for name, rel in classes:
         ci = eng.cls(name, rel)
         for c in eng.repo.mro(ci):
-            defines = [m for m in ('__eq__', '__hash__', '__ne__') if m in c.methods] + \
-                [unparse(t) for st in c.node.body if isinstance(st, ast.Assign) for t in st.targets if unparse(t) in ('__eq__', '__hash__')]
+            problems = []
+            if '__eq__' in c.methods:
+                ck.visited(c.methods['__eq__'])
+                r = eq_is_identity(eng, c, c.methods['__eq__'])
+                if r:
+                    problems.append(f'__eq__: {r}')
+                elif '__hash__' not in c.methods and not any(isinstance(st, ast.Assign) and any(unparse(t) == '__hash__' for t in st.targets) for st in c.node.body):
+                    problems.append('__eq__ without __hash__ sets __hash__ to None: the objects can no longer be put in a set or used as a key')
+            if '__ne__' in c.methods:
+                problems.append('__ne__ is defined')
+            problems += [f'{unparse(t)} is bound to {unparse(st.value)}' for st in c.node.body if isinstance(st, ast.Assign) for t in st.targets if unparse(t) in ('__eq__', '__ne__')]
+            h = hash_is_identity(c)
+            if h:
+                problems.append(h)
             dc = [d for d in c.node.decorator_list if 'dataclass' in unparse(d)]
             dc_eq = bool(dc) and not any(isinstance(d, ast.Call) and const(kw(d, 'eq')) is False for d in dc)
-            ck.ob(rule, c, c.node, f'{c.name} (base of {name}) compares by identity: {why}', not defines and not dc_eq,
-                  f'{c.name} defines {defines or "a dataclass-generated __eq__"}: equal is no longer identical; `in` / `list.remove()` / `==` pick the first EQUAL object',
+            if dc_eq:
+                problems.append('a dataclass-generated __eq__')
+            ck.ob(rule, c, c.node, f'{c.name} (base of {name}) compares by identity: {why}', not problems,
+                  f'{c.name}: {"; ".join(problems)}: equal is no longer identical; `in` / `list.remove()` / `==` pick the first EQUAL object',
                   construct=f'{c.name} identity')
 
 
@@ -463,10 +652,25 @@ def presence_truthiness(eng: Engine, ck: Check, rule: str, classes: list[tuple[s
     """`if request.timer:`, `if self._session and ..`, `if not peer.connection` mean "is there one": none of the classes (nor a repository base
     class) defines __bool__ or __len__.  With a truth value of its own (a timer that is falsy until started, an empty container
     class) the presence test silently takes the other branch."""
+    def always_true(f_: FuncInfo) -> bool:
+        """every exit of the method is `return True` (what object.__bool__ answers)"""
+        rets = [n for n in walk_local(f_.node) if isinstance(n, ast.Return)]
+        body = [s_ for s_ in f_.node.body if not (isinstance(s_, ast.Expr) and isinstance(s_.value, ast.Constant))]
+        return bool(rets) and all(const(r.value) is True for r in rets) and bool(body) and isinstance(body[-1], ast.Return) and \
+            not any(isinstance(n, (ast.Raise, ast.Call, ast.Await)) for n in walk_local(f_.node))
     for name, rel in classes:
         ci = eng.cls(name, rel)
         for c in eng.repo.mro(ci):
             defines = [m for m in ('__bool__', '__len__') if m in c.methods]
+            # an explicit `__bool__` that answers True on every path IS the default truth value (and takes precedence over __len__)
+            for b_ in eng.repo.mro(ci):
+                if '__bool__' in b_.methods:
+                    if always_true(b_.methods['__bool__']):
+                        ck.visited(b_.methods['__bool__'])
+                        defines = []
+                    break
+                if b_ is c:
+                    break
             ck.ob(rule, c, c.node, f'{c.name} has no truth value of its own: {why}', not defines,
                   f'{c.name} defines {defines}: `if <{name.lower()}>:` no longer means "there is one"', construct=f'{c.name} truthiness')
 
@@ -578,13 +782,31 @@ def active_connection_definition(eng: Engine, ck: Check, rule: str, relies: str)
     keeps = collected_returns(eng, m)
     ok = bool(keeps)
     detail = []
+    universe = {'state': ('ConnectionState', CONN), 'connection_state': ('PeerConnectionState', CONN)}
+
+    def members(name, rel):
+        ci = eng.repo.find_cls(name, rel)
+        if ci is None:
+            raise AnalysisError(f'anchor class vanished: {rel}:{name}')
+        return {st.targets[0].id for st in ci.node.body if isinstance(st, ast.Assign) and len(st.targets) == 1 and isinstance(st.targets[0], ast.Name)
+                and not st.targets[0].id.startswith('_')}
     for conds, elt in keeps:
-        st = {(unparse(cmp_atom(e)[1]).split('.')[-1], frozenset(enum_members_in(cmp_atom(e)[2])), pol) for e, pol in conds if cmp_atom(e) and cmp_atom(e)[0] in ('eq', 'is', 'in')}
-        good = ('state', frozenset({'CONNECTED'}), True) in st and ('connection_state', frozenset({'ESTABLISHED'}), True) in st
-        ok = ok and good
-        detail.append(sorted((a, sorted(b), c) for a, b, c in st))
+        # the values of each field that pass ALL the tests on it: `== M`, `is M`, `in (M..)` keep the named members, their negations
+        # (`!= M`, `not in (M..)`) keep the rest of the enum
+        admitted = {f_: members(*u) for f_, u in universe.items()}
+        for e, pol in conds:
+            a = cmp_atom(e)
+            if not a or a[0] not in ('eq', 'is', 'in'):
+                continue
+            fld = unparse(a[1]).split('.')[-1]
+            if fld not in admitted:
+                continue
+            named = enum_members_in(a[2])
+            admitted[fld] &= named if pol else (members(*universe[fld]) - named)
+        ok = ok and admitted['state'] == {'CONNECTED'} and admitted['connection_state'] == {'ESTABLISHED'}
+        detail.append({k: sorted(v) for k, v in admitted.items()})
     ck.ob(rule, m, m.node, f'an active peer connection is one whose state is CONNECTED and whose connection_state is ESTABLISHED ({relies})', ok,
-          f'kept under {detail}: a connection that is CLOSING (or not yet connected) is handed out; send_message() on it logs and returns without sending',
+          f'kept: {detail}: a connection that is CLOSING (or not yet connected) is handed out; send_message() on it logs and returns without sending',
           construct='active connection definition')
 
 
@@ -625,6 +847,28 @@ def state_operation(eng: Engine, ci: ClassInfo, op: str) -> Optional[FuncInfo]:
     return None
 
 
+def class_flag(eng: Engine, ci: ClassInfo, src: str) -> Optional[bool]:
+    """The truth of `self.<NAME>` / `type(self).<NAME>` / `self.__class__.<NAME>` for objects of class `ci` when NAME is bound once, to a
+    constant, in the body of the first class of ci's MRO that binds it (and no method assigns `self.<NAME>`); None otherwise."""
+    m_ = re.fullmatch(r'(?:self|type\(self\)|self\.__class__)\.([A-Za-z_][A-Za-z_0-9]*)', src)
+    if not m_:
+        return None
+    name = m_.group(1)
+    for c in eng.repo.mro(ci):
+        if any(isinstance(n, (ast.Assign, ast.AugAssign, ast.AnnAssign)) and any(
+                isinstance(t, ast.Attribute) and t.attr == name for t in (n.targets if isinstance(n, ast.Assign) else [n.target]))
+                for f_ in c.methods.values() for n in ast.walk(f_.node)):
+            return None
+        binds = [st for st in c.node.body if isinstance(st, (ast.Assign, ast.AnnAssign)) and any(
+            isinstance(t, ast.Name) and t.id == name for t in (st.targets if isinstance(st, ast.Assign) else [st.target]))]
+        if not binds:
+            continue
+        if len(binds) == 1 and isinstance(binds[0].value, ast.Constant):
+            return bool(binds[0].value.value)
+        return None
+    return None
+
+
 def requeue_forgets_local_file(eng: Engine, ck: Check, rule: str):
     """A download that is queued again from ABORTED or COMPLETE starts over: its progress and its local path are forgotten
     (`reset_progress_vars()`, `reset_local_vars()` for downloads) before the transition.  Every abort removes the local file, but the
@@ -643,7 +887,10 @@ def requeue_forgets_local_file(eng: Engine, ck: Check, rule: str):
             calls = [x for x in calls_on(m.node, nm) if unparse(x.func.value) == 'self.transfer']
             ok = False
             for x in calls:
-                gs = [(unparse(e), pol) for e, pol, _ in eng.guards_at(m, x)]
+                gs = [(unparse(e2), p2) for e, pol, _ in eng.guards_at(m, x) for e2, p2 in split_conj(expand_aliases(m, e), pol)]
+                # a guard on a constant of the state class (`self.<FLAG>`) is decided for THIS state's class: the function may be shared
+                # between states (class-level alias, inheritance) and switched per class
+                gs = [(g, pol) for g, pol in gs if class_flag(eng, ci, g) is not pol or class_flag(eng, ci, g) is None]
                 if all((g == 'self.transfer.is_download()' and pol) or (g == 'self.transfer.is_upload()' and not pol) for g, pol in gs):
                     ok = True
             got[nm] = ok
